@@ -72,6 +72,8 @@ def project_function(fn, L):
         for i in bb.Instructions:
             d = {"op": i.OpCode.name, "ref": i.Reference if isinstance(i.Reference, int) else -2, "t": tyj(i.Type, L),
                  "cls": type(i).__name__, "uses": [], "tgt": [], "cond": False}
+            # an instruction whose opcode says "store" has a stored operand, even if the object lost it (-1 = absent)
+            is_store = i.OpCode.name in ("STORE", "STORE_ARRAY", "STORE_MEMBER", "VECTOR_SET", "MATRIX_SET")
             if isinstance(i, L.BinaryInstruction):
                 d["uses"] = [ref(v) for v in i.Values]
             elif isinstance(i, L.BranchInstruction):
@@ -85,20 +87,20 @@ def project_function(fn, L):
             elif isinstance(i, L.ConstructPrimitiveInstruction):
                 d["uses"] = [ref(v) for v in i.Values]
             elif isinstance(i, L.MemberAccessInstruction):
-                d["uses"] = [ref(i.Variable)] + ([ref(i.Store)] if i.Store is not None else [])
+                d["uses"] = [ref(i.Variable)] + ([ref(i.Store)] if (i.Store is not None or is_store) else [])
                 d["member"] = i.Member
             elif isinstance(i, L.ShuffleInstruction):
                 d["uses"] = [ref(i.First), ref(i.Second)]
                 d["indices"] = list(i.Indices)
             elif isinstance(i, L.VariableAccessInstruction):
-                d["uses"] = [ref(i.Store)] if i.Store is not None else []
+                d["uses"] = [ref(i.Store)] if (i.Store is not None or is_store) else []
                 d["var"] = str(i.Variable)
                 d["scope"] = i.Scope.name
             elif isinstance(i, L.CallInstruction):
                 d["uses"] = [ref(a) for a in i.Arguments]
                 d["callee"] = i.Function
             elif isinstance(i, L._IndexedAccessBase):
-                d["uses"] = [ref(i.Array), ref(i.Index)] + ([ref(i.Store)] if i.Store is not None else [])
+                d["uses"] = [ref(i.Array), ref(i.Index)] + ([ref(i.Store)] if (i.Store is not None or is_store) else [])
             elif isinstance(i, L.DeclareVariableInstruction):
                 d["var"] = i.Name
                 d["scope"] = i.Scope.name
